@@ -429,6 +429,156 @@ theorem httpRead_amt_steps (C : List Nat) (s : State) (r k fuel n' : Nat) (len :
         · exact st.trans s2
       · exact st
 
+/-! ### the chunk parsers: primitive steps only -/
+
+theorem fpReadline_steps (C : List Nat) : ∀ (fuel : Nat) (s : State) (r k : Nat) (acc : List Cell),
+    Steps C s (fpReadline fuel s r k acc).1 := by
+  intro fuel
+  induction fuel with
+  | zero => intro s r k acc; exact .refl _
+  | succ m ih =>
+    intro s r k acc
+    unfold fpReadline
+    split
+    · exact .refl _
+    · rename_i rs _
+      split
+      · exact setResp_steps C s r _ (fun _ => rfl)
+      · have s1 := setResp_steps C s r (fun x => { x with buf := [] }) (fun _ => rfl)
+        have st := recvInto_steps C (setResp s r fun x => { x with buf := [] }) r k bufSize
+        dsimp only
+        generalize recvInto (setResp s r fun x => { x with buf := [] }) r k bufSize = q at st
+        obtain ⟨t, o⟩ := q
+        cases o with
+        | got => exact (s1.trans st).trans (ih t r k _)
+        | eof => exact s1.trans st
+        | exc e => exact s1.trans st
+
+theorem safeRead_steps (C : List Nat) (s : State) (r k n : Nat) : Steps C s (safeRead s r k n).1 := by
+  unfold safeRead
+  have st := fpRead_steps C (inboundLen s k + 2) s r k n []
+  generalize fpRead (inboundLen s k + 2) s r k n [] = q at st
+  obtain ⟨t, o⟩ := q
+  cases o with
+  | exc e => exact st
+  | data d => dsimp only; split <;> exact st
+
+theorem hcDiscardTrailer_steps (C : List Nat) (r k : Nat) : ∀ (fuel : Nat) (s : State), Steps C s (hcDiscardTrailer fuel s r k).1 := by
+  intro fuel
+  induction fuel with
+  | zero => intro s; exact .refl _
+  | succ m ih =>
+    intro s
+    unfold hcDiscardTrailer
+    have st := fpReadline_steps C (inboundLen s k + 2) s r k []
+    generalize fpReadline (inboundLen s k + 2) s r k [] = q at st
+    obtain ⟨t, o⟩ := q
+    cases o with
+    | exc e => exact st
+    | data line =>
+      dsimp only
+      split
+      · exact st.trans (setResp_steps C t r _ (fun _ => rfl))
+      · split
+        · exact st.trans (setResp_steps C t r _ (fun _ => rfl))
+        · exact st.trans (ih t)
+
+theorem skipTrailers_steps (C : List Nat) (r k : Nat) : ∀ (fuel : Nat) (s : State), Steps C s (skipTrailers fuel s r k).1 := by
+  intro fuel
+  induction fuel with
+  | zero => intro s; exact .refl _
+  | succ m ih =>
+    intro s
+    unfold skipTrailers
+    have st := fpReadline_steps C (inboundLen s k + 2) s r k []
+    generalize fpReadline (inboundLen s k + 2) s r k [] = q at st
+    obtain ⟨t, o⟩ := q
+    cases o with
+    | exc e => exact st
+    | data line =>
+      dsimp only
+      split
+      · exact st.trans (setResp_steps C t r _ (fun _ => rfl))
+      · split
+        · exact st.trans (setResp_steps C t r _ (fun _ => rfl))
+        · exact st.trans (ih t)
+
+theorem hcNext_steps (C : List Nat) (s : State) (r k : Nat) (cl : Option Nat) : Steps C s (hcNext s r k cl).1 := by
+  unfold hcNext
+  have s0 : Steps C s (hcToss s r k cl).1 := by
+    unfold hcToss
+    split
+    · have st := safeRead_steps C s r k 2
+      generalize safeRead s r k 2 = q at st
+      obtain ⟨t, o⟩ := q
+      cases o <;> exact st
+    · exact .refl _
+  generalize hcToss s r k cl = q at s0
+  obtain ⟨s1, oe⟩ := q
+  cases oe with
+  | some e => exact s0
+  | none =>
+    dsimp only
+    have st := fpReadline_steps C (inboundLen s1 k + 2) s1 r k []
+    generalize fpReadline (inboundLen s1 k + 2) s1 r k [] = q at st
+    obtain ⟨s2, o⟩ := q
+    cases o with
+    | exc e => exact s0.trans st
+    | data line =>
+      dsimp only
+      split
+      · exact (s0.trans st).trans (closeFp_steps C s2 r)
+      · have s3 := hcDiscardTrailer_steps C r k (inboundLen s2 k + (match s2.resps[r]? with | some rs => rs.buf.length | none => 0) + 2) s2
+        generalize hcDiscardTrailer (inboundLen s2 k + (match s2.resps[r]? with | some rs => rs.buf.length | none => 0) + 2) s2 r k = q at s3
+        obtain ⟨s4, oe⟩ := q
+        cases oe with
+        | some e => exact (s0.trans st).trans s3
+        | none =>
+          dsimp only
+          exact (((s0.trans st).trans s3).trans (setResp_steps C s4 r (fun x => { x with hcLeft := none }) (fun _ => rfl))).trans
+            (closeFp_steps C _ r)
+      · exact (s0.trans st).trans (setResp_steps C s2 r _ (fun _ => rfl))
+
+theorem hcGetChunkLeft_steps (C : List Nat) (s : State) (r k : Nat) : Steps C s (hcGetChunkLeft s r k).1 := by
+  unfold hcGetChunkLeft
+  split
+  · exact .refl _
+  · exact hcNext_steps C s r k _
+
+theorem hcReadChunked_steps (C : List Nat) (r k : Nat) : ∀ (fuel : Nat) (s : State) (amt : Option Nat) (acc : List Cell),
+    Steps C s (hcReadChunked fuel s r k amt acc).1 := by
+  intro fuel
+  induction fuel with
+  | zero => intro s amt acc; exact .refl _
+  | succ m ih =>
+    intro s amt acc
+    unfold hcReadChunked
+    have s0 := hcGetChunkLeft_steps C s r k
+    generalize hcGetChunkLeft s r k = q at s0
+    obtain ⟨s1, lo⟩ := q
+    cases lo with
+    | exc e => exact s0
+    | left v =>
+      cases v with
+      | none => exact s0
+      | some cl =>
+        dsimp only
+        split
+        · rename_i n _
+          have st := safeRead_steps C s1 r k n
+          generalize safeRead s1 r k n = q at st
+          obtain ⟨s2, o⟩ := q
+          cases o with
+          | exc e => exact s0.trans st
+          | data d => exact (s0.trans st).trans (setResp_steps C s2 r _ (fun _ => rfl))
+        · have st := safeRead_steps C s1 r k cl
+          generalize safeRead s1 r k cl = q at st
+          obtain ⟨s2, o⟩ := q
+          cases o with
+          | exc e => exact s0.trans st
+          | data d =>
+            exact ((s0.trans st).trans (setResp_steps C s2 r (fun x => { x with hcLeft := some 0 }) (fun _ => rfl))).trans (ih _ _ _)
+
 theorem httpRead_steps (C : List Nat) (s : State) (r : Nat) (amt : Option Nat) : Steps C s (httpRead s r amt).1 := by
   unfold httpRead
   split
@@ -439,7 +589,9 @@ theorem httpRead_steps (C : List Nat) (s : State) (r : Nat) (amt : Option Nat) :
     · rename_i k _
       split
       · exact closeFp_steps C s r
-      · dsimp only
+      · split
+        · exact hcReadChunked_steps C r k _ s amt []
+        dsimp only
         generalize inboundLen s k + 2 = fuel
         split
         · rename_i n
@@ -591,6 +743,121 @@ theorem drainConn_pres (C : List Nat) (s : State) (r : Nat) : Pres C s (drainCon
   | data d => exact h1
   | exc e => dsimp only; split <;> exact h1
 
+/-! ### `read_chunked` -/
+
+theorem updateChunkLength_steps (C : List Nat) (s : State) (r k : Nat) : Steps C s (updateChunkLength s r k).1 := by
+  unfold updateChunkLength
+  split
+  · exact .refl _
+  · have st := fpReadline_steps C (inboundLen s k + 2) s r k []
+    generalize fpReadline (inboundLen s k + 2) s r k [] = q at st
+    obtain ⟨t, o⟩ := q
+    cases o with
+    | exc e => exact st
+    | data line =>
+      dsimp only
+      split
+      · exact st.trans (setResp_steps C t r _ (fun _ => rfl))
+      · exact st.trans (respClose_steps C t r)
+
+theorem handleChunk_steps (C : List Nat) (s : State) (r k amt : Nat) : Steps C s (handleChunk s r k amt).1 := by
+  unfold handleChunk
+  split
+  · exact .refl _
+  · split
+    · have st := safeRead_steps C s r k amt
+      generalize safeRead s r k amt = q at st
+      obtain ⟨t, o⟩ := q
+      cases o with
+      | exc e => exact st
+      | data d => exact st.trans (setResp_steps C t r _ (fun _ => rfl))
+    · rename_i cl _ _
+      have st := safeRead_steps C s r k cl
+      generalize safeRead s r k cl = q at st
+      obtain ⟨t, o⟩ := q
+      cases o with
+      | exc e => exact st
+      | data d =>
+        dsimp only
+        have s2 := safeRead_steps C t r k 2
+        generalize safeRead t r k 2 = q at s2
+        obtain ⟨t2, o2⟩ := q
+        cases o2 with
+        | exc e => exact st.trans s2
+        | data d' => exact (st.trans s2).trans (setResp_steps C t2 r _ (fun _ => rfl))
+
+theorem chunkLoop_steps (C : List Nat) (r k amt : Nat) : ∀ (fuel : Nat) (s : State) (acc : List Cell),
+    Steps C s (chunkLoop fuel s r k amt acc).1 := by
+  intro fuel
+  induction fuel with
+  | zero => intro s acc; exact .refl _
+  | succ m ih =>
+    intro s acc
+    unfold chunkLoop
+    have s0 := updateChunkLength_steps C s r k
+    generalize updateChunkLength s r k = q at s0
+    obtain ⟨s1, oe⟩ := q
+    cases oe with
+    | some e => exact s0
+    | none =>
+      dsimp only
+      split
+      · exact s0
+      · have st := handleChunk_steps C s1 r k amt
+        generalize handleChunk s1 r k amt = q at st
+        obtain ⟨s2, o⟩ := q
+        cases o with
+        | exc e => exact s0.trans st
+        | data d => exact ((s0.trans st).trans (deliver_steps C s2 r d)).trans (ih _ _)
+
+theorem readChunkedBody_steps (C : List Nat) (s : State) (r amt : Nat) : Steps C s (readChunkedBody s r amt).1 := by
+  unfold readChunkedBody
+  split
+  · exact .refl _
+  · rename_i rs _
+    split
+    · exact closeFp_steps C s r
+    · split
+      · exact .refl _
+      · rename_i k _
+        dsimp only
+        generalize inboundLen s k + rs.buf.length + 2 = fuel
+        have s0 := chunkLoop_steps C r k amt fuel s []
+        generalize chunkLoop fuel s r k amt [] = q at s0
+        obtain ⟨s1, o⟩ := q
+        cases o with
+        | exc e => exact s0
+        | data d =>
+          dsimp only
+          have st := skipTrailers_steps C r k fuel s1
+          generalize skipTrailers fuel s1 r k = q at st
+          obtain ⟨s2, oe⟩ := q
+          cases oe with
+          | some e => exact s0.trans st
+          | none => exact (s0.trans st).trans (closeFp_steps C s2 r)
+
+theorem readChunked_pres (C : List Nat) (s : State) (r amt : Nat) : Pres C s (readChunked s r amt).1 := by
+  unfold readChunked
+  have h1 := readChunkedBody_steps C s r amt
+  generalize readChunkedBody s r amt = q at h1
+  obtain ⟨s1, o⟩ := q
+  dsimp only
+  refine (Pres.of_steps h1).trans ?_
+  unfold catcherExit
+  cases o with
+  | exc e =>
+    dsimp only
+    have := errorCatcherExit_pres C s1 r false
+    generalize errorCatcherExit s1 r false = q at this
+    obtain ⟨t, o⟩ := q
+    cases o <;> exact this
+  | data d =>
+    dsimp only
+    have := errorCatcherExit_pres C s1 r true
+    generalize errorCatcherExit s1 r true = q at this
+    obtain ⟨t, o⟩ := q
+    cases o <;> exact this
+
 theorem disposeResp_pres (C : List Nat) (s : State) (r : Nat) (how : How) : Pres C s (disposeResp s r how).1 := by
   have rel : ∀ (t : State) (d : DispOut), Pres C t (match releaseConn t r with
       | (s, some e) => (s, DispOut.raised e)
@@ -645,11 +912,18 @@ theorem disposeResp_pres (C : List Nat) (s : State) (r : Nat) (how : How) : Pres
   | stream k =>
     unfold disposeResp
     dsimp only
-    generalize (totalInbound s + (match s.resps[r]? with | some rs => rs.buf.length | none => 0) + 2) = fuel
-    have h1 := respStream_pres C fuel s r k []
-    generalize respStream fuel s r k [] = q at h1
-    obtain ⟨t, o⟩ := q
-    cases o <;> exact h1
+    by_cases hc : respChunked s r = true
+    · rw [if_pos hc]
+      have h1 := readChunked_pres C s r k
+      generalize readChunked s r k = q at h1
+      obtain ⟨t, o⟩ := q
+      cases o <;> exact h1
+    · rw [if_neg hc]
+      generalize (totalInbound s + (match s.resps[r]? with | some rs => rs.buf.length | none => 0) + 2) = fuel
+      have h1 := respStream_pres C fuel s r k []
+      generalize respStream fuel s r k [] = q at h1
+      obtain ⟨t, o⟩ := q
+      cases o <;> exact h1
 
 theorem dispose_inv {s : State} (rid : Nat) (how : How) (h : Inv s) : Inv (dispose s rid how).1 := by
   unfold dispose
@@ -870,7 +1144,7 @@ theorem connRequest_steps (s : State) (c rid : Nat) (a : Attempt) : Steps [c] s 
             match sendExc a.send with
             | some e => (v, Except.error e)
             | none =>
-              (setSock (logEv v (.send k)) k fun sk => { sk with inbound := sk.inbound ++ serverCells rid a, after := a.after }, .ok k)).1 := by
+              (setSock (logEv v (.send k)) k fun sk => { sk with inbound := sk.inbound ++ (sk.held ++ serverNow rid a), held := serverHeld rid a, after := a.after }, .ok k)).1 := by
         intro v ek hv
         cases ek with
         | error e => exact hv
@@ -972,7 +1246,7 @@ theorem connRequest_cls {s s' : State} {c rid : Nat} {a : Attempt} {e : Exc} (hc
           (match sendExc a.send with
             | some e => (v, (Except.error e : Except Exc Nat))
             | none =>
-              (setSock (logEv v (.send k)) k fun sk => { sk with inbound := sk.inbound ++ serverCells rid a, after := a.after }, .ok k))
+              (setSock (logEv v (.send k)) k fun sk => { sk with inbound := sk.inbound ++ (sk.held ++ serverNow rid a), held := serverHeld rid a, after := a.after }, .ok k))
             = (s', .error e) →
           e.cls ∈ sendCls ∧ (sendSwallowed e = true → ∃ (cn : Conn) (k : Nat), s'.conns[c]? = some cn ∧ cn.sock = some k) := by
         intro v k hv hh
